@@ -1,12 +1,189 @@
 /-
-  Oracle commands for C09 (stub: owns no commands yet).
+  Oracle commands for C09 (registry client).  Digests are written as the hex of their pre-image
+  (`D := Bytes`, `H := id`).
+
+    pull <thr> <limit|-1> <linkShortcut 0|1> <nattempts> {attempt}*
+      attempt := <name> ( manerr <cls> | man <id> <dataLen> <nlayers> {<dig> <size>}* <hascfg 0|1> [<dig> <size>] )
+                 <nplans> {plan}* <nsteps> {step}*
+      plan    := pfail | plist <n> {<dig> <start> <len>}*
+      step    := cancel | rel <k> fail <cls> | rel <k> body <npieces> {<hex>}* <eof|err>
+      -> per attempt "<outcome> n=<waiting requests before each step> link=<manifest id|none> files=<hex,...>", joined by " | "
+    push <nlayers> {postErr|cached|putOk|putErr}* <nsched> {k}* <manifestOk 0|1>
+      -> "<events> res=<ok|err>" | bad-schedule
+    legacy <nlayers> {<head 0|1|2> <post 0|1> <npatch> {0|1}* <ncommit> {0|1}*}* <manifestOk 0|1>
+      -> "<events> res=<ok|err>"
 -/
+import OllamaVerif.Model.Registry
 import Oracle.Util
 namespace Oracle.C09
-open Oracle
+open OllamaVerif OllamaVerif.Registry Oracle
+
+abbrev Dg := Bytes
+
+def pCls : TP ErrClass := do
+  match (← tok) with
+  | "status4xx" => pure .status4xx
+  | "status5xx" => pure .status5xx
+  | "notFound" => pure .notFound
+  | "transport" => pure .transport
+  | "canceled" => pure .canceled
+  | "eof" => pure .eof
+  | "readErr" => pure .readErr
+  | "digest" => pure .digest
+  | "incomplete" => pure .incomplete
+  | "invalidManifest" => pure .invalidManifest
+  | _ => failure
+
+def showCls : ErrClass → String
+  | .status4xx => "status4xx" | .status5xx => "status5xx" | .notFound => "notFound"
+  | .transport => "transport" | .canceled => "canceled" | .eof => "eof" | .readErr => "readErr"
+  | .digest => "digest" | .incomplete => "incomplete" | .invalidManifest => "invalidManifest"
+
+def showOutcome : Outcome → String
+  | .ok => "ok"
+  | .err e => "err:" ++ showCls e
+  | .stuck => "stuck"
+
+def pLayer : TP (Layer Dg) := do
+  let d ← hex
+  let s ← nat
+  pure ⟨d, s⟩
+
+def pMan : TP (Except ErrClass (Manifest Dg)) := do
+  match (← tok) with
+  | "manerr" => return .error (← pCls)
+  | "man" =>
+    let id ← nat
+    let dl ← nat
+    let ls ← listOf pLayer
+    let hc ← nat
+    let cfg ← if hc != 0 then (do let l ← pLayer; pure (some l)) else pure none
+    return .ok ⟨id, dl, ls, cfg⟩
+  | _ => failure
+
+def pCS : TP (CS Dg) := do
+  let d ← hex
+  let s ← nat
+  let n ← nat
+  pure ⟨d, s, n⟩
+
+def pPlan : TP (PlanResp Dg) := do
+  match (← tok) with
+  | "pfail" => pure .fail
+  | "plist" => return .list (← listOf pCS)
+  | _ => failure
+
+def pEnd : TP BodyEnd := do
+  match (← tok) with
+  | "eof" => pure .eof
+  | "err" => pure .err
+  | _ => failure
+
+def pStep : TP Step := do
+  match (← tok) with
+  | "cancel" => pure .cancel
+  | "rel" =>
+    let k ← nat
+    match (← tok) with
+    | "fail" => return .release k (.fail (← pCls))
+    | "body" =>
+      let ps ← listOf hex
+      let e ← pEnd
+      return .release k (.body ps e)
+    | _ => failure
+  | _ => failure
+
+def pAttempt : TP (Attempt Dg) := do
+  let name ← nat
+  let man ← pMan
+  let plans ← listOf pPlan
+  let steps ← listOf pStep
+  pure ⟨name, man, plans, steps⟩
+
+/-- number of waiting chunk requests before each step -/
+def waiting (limit : Option Nat) : Run Dg → List Step → List Nat
+  | _, [] => []
+  | st, s :: ss =>
+    st.inflight.length :: (match step id limit st s with
+      | none => []
+      | some st' => waiting limit st' ss)
+
+def showAttempt (cfg : Cfg) (c : Cache Dg) (a : Attempt Dg) : String × Cache Dg :=
+  let r := pull id cfg c a
+  let (ns, layers) := match a.man with
+    | .error _ => ([], [])
+    | .ok m => (if m.layers.isEmpty then [] else waiting cfg.limit (startRun cfg c m a.plans) a.steps, m.all)
+  let link := match r.1.links a.name with
+    | some m => toString m.id
+    | none => "none"
+  let files := layers.map fun l => hexOrDash ((r.1.files l.digest).getD [])
+  (s!"{showOutcome r.2} n={joinWith "." (ns.map toString)} link={link} files={joinWith "," files}", r.1)
+
+def showHistory (cfg : Cfg) : Cache Dg → List (Attempt Dg) → List String
+  | _, [] => []
+  | c, a :: as =>
+    let r := showAttempt cfg c a
+    r.1 :: showHistory cfg r.2 as
+
+def pOut : TP UpOutcome := do
+  match (← tok) with
+  | "postErr" => pure .postErr
+  | "cached" => pure .cached
+  | "putOk" => pure .putOk
+  | "putErr" => pure .putErr
+  | _ => failure
+
+def pm (b : Bool) : String := if b then "+" else "-"
+
+def showPushEv : PushEv → String
+  | .post i ok => s!"P{i}{pm ok}"
+  | .put i ok => s!"U{i}{pm ok}"
+  | .manifest => "M"
+
+def showLegEv : LegEv → String
+  | .head i r => s!"H{i}:{r}"
+  | .post i ok => s!"P{i}{pm ok}"
+  | .patch i ok => s!"A{i}{pm ok}"
+  | .commit i ok => s!"C{i}{pm ok}"
+  | .manifest => "M"
+
+def pBool : TP Bool := do
+  let n ← nat
+  pure (n != 0)
+
+def pLegacy : TP LegacyLayer := do
+  let h ← nat
+  let p ← pBool
+  let pa ← listOf pBool
+  let co ← listOf pBool
+  pure ⟨h, p, pa, co⟩
 
 def handle (toks : List String) : Option String :=
   match toks with
+  | "pull" :: rest =>
+    runTP (do
+      let thr ← nat
+      let lim ← int
+      let sc ← pBool
+      let as ← listOf pAttempt
+      let cfg : Cfg := ⟨thr, if lim < 0 then none else some lim.toNat, sc⟩
+      pure (joinWith " | " (showHistory cfg Cache.empty as))) rest
+  | "push" :: rest =>
+    runTP (do
+      let outs ← listOf pOut
+      let sched ← listOf nat
+      let mok ← pBool
+      pure (match pushTrace outs sched with
+        | none => "bad-schedule"
+        | some tr =>
+          let ok := outs.all (·.good) && mok
+          s!"{joinWith " " (tr.map showPushEv)} res={if ok then "ok" else "err"}")) rest
+  | "legacy" :: rest =>
+    runTP (do
+      let ls ← listOf pLegacy
+      let mok ← pBool
+      let r := legacyPush 0 ls
+      pure s!"{joinWith " " (r.1.map showLegEv)} res={if r.2 && mok then "ok" else "err"}") rest
   | _ => none
 
 end Oracle.C09
